@@ -46,7 +46,9 @@ var c15PathCalls = []string{"open", "openat", "openat2", "stat", "lstat", "newfs
 var c15Ptrs = []string{"!null", "!one", "!kern", "!unmapped", "!high", "!run=4095", "!run=4096", "!run=4097", "!run=8192", "!run=1", "!runz=4095", "!runz=4096", "!runz=5000",
 	"pendnz", "pend", "cross", "plain", "plain-long",
 	// well-formed strings naming hostile file-system shapes: the tracer resolves them itself while the tracee is stopped
-	"fs-loopself", "fs-loopdir", "fs-looptwo", "fs-chain46", "fs-dotlink60", "fs-updots"}
+	"fs-loopself", "fs-loopdir", "fs-looptwo", "fs-chain46", "fs-dotlink60", "fs-updots",
+	// well-formed strings naming procfs objects (the handler has a policy of its own for them and rewrites self -> pid)
+	"proc-self", "proc-1", "proc-self-updown", "proc-thread-self", "proc-self-fd", "proc-self-fd-up", "proc-self-root", "proc-self-cwd", "proc-bare", "proc-self-task-tid"}
 
 var c15Multi = []string{"thread-vs-exit", "kill-sibling", "child-dies-in-parent-trap", "vfork-storm", "many-children", "self-stop", "thread-storm", "kill-self-thread", "orphan-sleeper", "orphan-daemon", "kill-newborn", "kill-newborn"}
 
@@ -98,7 +100,9 @@ func c15Run(c c15Case, root string, rec *vh.Recorder) error {
 			return s.Sys(nr, dirfd, parg, flags, 0o644)
 		case "openat2":
 			how := []string{"!how=0,0,0", "!howpend=0", "!hownone", "!null", "!kern", fmt.Sprintf("!how=%d,0,0", flags&0xffffffff)}[flags%6]
-			return s.Sys(nr, dirfd, parg, how, 24)
+			// the size argument is a 64-bit register like the others
+			size := []uint64{24, 24, 24, 0, 8, 23, 25, 0x1000, 0x100000018, 0x7fffffffffffffff, 0x8000000000000018, 0xffffffffffffffff, 0xffffffff00000018, 1 << 63}[(flags>>8)%14]
+			return s.Sys(nr, dirfd, parg, how, size)
 		case "stat", "lstat":
 			return s.Sys(nr, parg, "!buf")
 		case "newfstatat":
@@ -156,6 +160,26 @@ func c15Run(c c15Case, root string, rec *vh.Recorder) error {
 			return s.Str(root + "/" + strings.Repeat("dd/", 60) + "file")
 		case "fs-updots":
 			return s.Str(strings.Repeat("../", 1300) + strings.TrimPrefix(root, "/") + "/file")
+		case "proc-self":
+			return s.Str("/proc/self")
+		case "proc-1":
+			return s.Str("/proc/1")
+		case "proc-self-updown":
+			return s.Str("/proc/self/task/../../self/task/..")
+		case "proc-thread-self":
+			return s.Str("/proc/thread-self")
+		case "proc-self-fd":
+			return s.Str("/proc/self/fd")
+		case "proc-self-fd-up":
+			return s.Str("/proc/self/fd/..")
+		case "proc-self-root":
+			return s.Str("/proc/self/root")
+		case "proc-self-cwd":
+			return s.Str("/proc/self/cwd/.")
+		case "proc-bare":
+			return s.Str("/proc/")
+		case "proc-self-task-tid":
+			return s.Str("/proc/self/task/1/..")
 		}
 		return ptr
 	}
